@@ -113,6 +113,13 @@ func newSystem(c config) (*system, error) {
 	}
 	sys := &system{c: c, s: hk.NewSession(chain, nil)}
 	sys.s.BindAll()
+	for k, rm := range sys.s.Remotes {
+		h, p := hk.Shape(0, rm.Info.SSRC, 30000, 1)
+		if k == 1 {
+			_ = h.SetExtension(hk.TwccExtID, []byte{0x75, 0x30})
+		}
+		copy(rm.Buf, hk.MarshalRTP(h, p))
+	}
 	for k := range sys.wseq {
 		sys.wseq[k], sys.rseq[k] = 65533, 65533 // the sequence numbers wrap inside short histories
 	}
@@ -228,9 +235,8 @@ func (sys *system) read(stream, shape int) (string, error) {
 		_ = h.SetExtension(hk.TwccExtID, []byte{byte(q >> 8), byte(q)})
 	}
 	raw := hk.MarshalRTP(h, p)
-	for i := range rm.Buf {
-		rm.Buf[i] = 0x5A // stale bytes beyond n
-	}
+	// the read buffer still holds the previous packet (before the first read: an old, well-formed packet
+	// with a far-away sequence number), so a wrapper that parses stale bytes accounts something observable
 	injectFault := sys.failR
 	if injectFault {
 		rm.FailNextRead()
